@@ -873,3 +873,8 @@ PROPS["C15"]["level_note"] = PROPS["C15"]["level_note"].replace(
 PROPS["C15"]["rule"] = PROPS["C15"]["rule"].replace("so that the known finding cannot hide another disagreement", "kept from the time of the (repaired) infinity-key finding: a second, masked view of the same histories")
 
 PROPS["C09"]["open"] = [o.replace("get_coinspends_with_conditions_for_trusted_block is not modelled (same recovery loop plus a condition listing)", "get_coinspends_with_conditions_for_trusted_block is not modelled in Lean (same recovery loop plus a condition listing); it is covered by the correspondence: on every accepted block its coin spends must equal those of get_coinspends_for_trusted_block and its listed CREATE_COIN entries must be the created coins of the validated spend (field withconds=)") for o in PROPS["C09"]["open"]]
+
+# --- C09: the listing variant get_coinspends_with_conditions_for_trusted_block is now modelled (Model/WithConds.lean)
+PROPS["C09"]["theorems"] = PROPS["C09"]["theorems"] + ['ChiaModel.C09.withconds_coinspends', 'ChiaModel.C09.withconds_of_accept', 'ChiaModel.C09.listing_spec', 'ChiaModel.C09.listing_create_coin']
+PROPS["C09"]["open"] = [o for o in PROPS["C09"]["open"] if not o.startswith('get_coinspends_with_conditions_for_trusted_block is not modelled')]
+PROPS["C09"]["level_text"] = PROPS["C09"]["level_text"] + " The listing variant get_coinspends_with_conditions_for_trusted_block is modelled too (getCoinspendsWithConds: extract_n::<3> failure is an error, every puzzle run separately under MAX_BLOCK_COST_CLVM, listing loop with small_number opcode, up to six atom arguments, the 1024-byte skip and the 1024-entry limit that spares AGG_SIG_* and CREATE_COIN): whenever it succeeds its coin spends are exactly those of get_coinspends_for_trusted_block (withconds_coinspends, every generator and flag set), on every accepted block it does succeed, with one listing per validated spend, the k-th being the listing of the k-th validated spend's puzzle output (withconds_of_accept), a listing is the in-order fold of the per-condition entries under the limit, a sub-list of them that keeps every AGG_SIG_* / CREATE_COIN entry (listing_spec), and a CREATE_COIN entry carries the puzzle hash and amount atoms first and is omitted only when a later atom argument has 1024 bytes or more (listing_create_coin). The driver prints the model's listings (wcl=) and the harness the real ones on every accepted block."
